@@ -138,6 +138,7 @@ Proof.
   - exact H.
   - exact H.
   - unfold rebuild. apply inv_set_var. reflexivity.
+  - apply inv_set_var. reflexivity.
 Qed.
 Lemma inv_run (ops : list op) : forall m, Inv m -> Inv (run m ops).
 Proof.
